@@ -73,11 +73,19 @@ pub fn gen_history(r: &mut Rng, n_ops: usize, with_admin: bool, nodes0: u32, ext
     for i in 0..n_ops {
         let admin = with_admin && i > 0 && r.chance(1, 4);
         if admin {
+            // a close that really rewrites the log needs an empty set of runs, i.e. a preceding
+            // compaction: make that pair common
+            let after_compact = matches!(ops.last(), Some(Op::Compact));
             ops.push(match r.below(4) {
+                _ if after_compact && r.chance(1, 2) => Op::CloseReopen,
                 0 | 1 => Op::Compact,
                 2 => Op::CloseReopen,
                 _ => Op::DropReopen,
             });
+            continue;
+        }
+        if matches!(ops.last(), Some(Op::Compact)) && with_admin && r.chance(1, 3) {
+            ops.push(Op::CloseReopen);
             continue;
         }
         let mut ws = vec![];
@@ -561,6 +569,22 @@ impl Grouper {
 /// The abstract trace of a run: (step, number of I/O events consumed when the step is complete).
 /// `SAck` is inserted at the end of every operation that returned Ok.
 pub fn abstract_trace(run: &Run) -> Vec<(AStep, usize)> {
+    abstract_trace2(run).0
+}
+
+fn rrec(body: &[u8], page_writes: u64) -> String {
+    let n = |x: u64| vh::coq_n(x as u128);
+    match body.first() {
+        Some(1) => format!("(RBegin {})", n(le64(&body[1..]))),
+        Some(2) => format!("(RCommit {})", n(le64(&body[1..]))),
+        Some(10) => format!("(RCkpt {} {})", n(le64(&body[1..])), n(page_writes)),
+        _ => "RData".to_string(),
+    }
+}
+
+/// abstract trace plus the same run at record granularity (Coq terms of type `rstep`)
+pub fn abstract_trace2(run: &Run) -> (Vec<(AStep, usize)>, Vec<String>) {
+    let mut rt: Vec<String> = vec![];
     let mut out: Vec<(AStep, usize)> = vec![];
     let evs = &run.events;
     let mut page_writes: u64 = 0;
@@ -576,6 +600,7 @@ pub fn abstract_trace(run: &Run) -> Vec<(AStep, usize)> {
             if o.end <= i {
                 if o.result.is_ok() {
                     out.push((AStep::Ack, o.end));
+                    rt.push("ROpOk".into());
                 }
                 op_iter.next();
             } else {
@@ -601,6 +626,7 @@ pub fn abstract_trace(run: &Run) -> Vec<(AStep, usize)> {
                 let first_of_frame = ev.data.len() == 4 && (i == 0 || !(evs[i - 1].path == run.wal_path && evs[i - 1].kind == IoKind::Write && evs[i - 1].data.len() == 4 && evs[i - 1].offset + 4 == ev.offset));
                 if !rolled_back && !first_of_frame {
                     out.push((AStep::Torn, i + 1));
+                    rt.push("RWtorn".into());
                 }
             }
             i += 1;
@@ -609,6 +635,7 @@ pub fn abstract_trace(run: &Run) -> Vec<(AStep, usize)> {
         match ev.kind {
             IoKind::Write if is_wal => {
                 if ev.data.len() == 4 && i + 2 < evs.len() && evs[i + 1].kind == IoKind::Write && evs[i + 2].kind == IoKind::Write && !evs[i + 1].failed && !evs[i + 2].failed && evs[i + 1].path == run.wal_path && evs[i + 2].path == run.wal_path {
+                    rt.push(format!("RW {}", rrec(&evs[i + 2].data, page_writes)));
                     if let Some(st) = g.feed(&evs[i + 2].data, page_writes) {
                         out.push((st, i + 3));
                     }
@@ -619,6 +646,7 @@ pub fn abstract_trace(run: &Run) -> Vec<(AStep, usize)> {
             }
             IoKind::Write if is_tmp => {
                 if ev.data.len() >= 9 {
+                    rt.push(format!("RTmp {}", rrec(&ev.data[8..], page_writes)));
                     if let Some(st) = tmp_g.feed(&ev.data[8..], page_writes) {
                         tmp_steps.push(st);
                     }
@@ -627,15 +655,23 @@ pub fn abstract_trace(run: &Run) -> Vec<(AStep, usize)> {
             IoKind::Write if is_ndb => {
                 page_writes += 1;
                 out.push((AStep::P, i + 1));
+                rt.push("RP".into());
             }
-            IoKind::Sync if is_wal => out.push((AStep::WSync, i + 1)),
-            IoKind::Sync if is_ndb => out.push((AStep::PSync, i + 1)),
+            IoKind::Sync if is_wal => {
+                out.push((AStep::WSync, i + 1));
+                rt.push("RWSync".into());
+            }
+            IoKind::Sync if is_ndb => {
+                out.push((AStep::PSync, i + 1));
+                rt.push("RPSync".into());
+            }
             IoKind::Rename => {
                 let st = match tmp_steps.as_slice() {
                     [AStep::Tx(t, Some((u, k)))] => AStep::Rewrite(*t, *u, *k),
                     _ => AStep::Bad,
                 };
                 out.push((st, i + 1));
+                rt.push("RRename".into());
                 tmp_steps.clear();
                 tmp_g = Grouper::default();
                 g = Grouper::default();
@@ -644,7 +680,7 @@ pub fn abstract_trace(run: &Run) -> Vec<(AStep, usize)> {
         }
         i += 1;
     }
-    out
+    (out, rt)
 }
 
 /// number of abstract steps complete after the first k events
@@ -671,13 +707,20 @@ impl MDisk {
     pub fn step(&mut self, s: &AStep) -> bool {
         match s {
             AStep::Tx(t, ck) => {
-                let ok = match ck {
-                    Some((u, n)) => {
-                        let ids: Vec<u64> = m_scan(&self.wv).iter().map(|x| x.0).collect();
-                        *n == self.pv && self.pd == self.pv && self.acked.iter().all(|a| a <= u || ids.contains(a) || a == t)
-                    }
+                // the checkpoint in force: the last one in the readable log
+                let eff = m_scan(&self.wv).iter().rev().find_map(|x| x.1);
+                let above = match eff {
+                    Some((u, _)) => u < *t,
                     None => true,
                 };
+                let ok = above
+                    && match ck {
+                        Some((u, n)) => {
+                            let ids: Vec<u64> = m_scan(&self.wv).iter().map(|x| x.0).collect();
+                            *n == self.pv && self.pd == self.pv && u < t && self.acked.iter().all(|a| a <= u || ids.contains(a) || a == t)
+                        }
+                        None => true,
+                    };
                 self.wv.push(Some((*t, *ck)));
                 ok
             }
@@ -698,7 +741,7 @@ impl MDisk {
                 true
             }
             AStep::Rewrite(t, u, n) => {
-                let ok = *n == self.pv && self.pd == self.pv && self.acked.iter().all(|a| a <= u || a == t);
+                let ok = *n == self.pv && self.pd == self.pv && u < t && self.acked.iter().all(|a| a <= u || a == t);
                 self.wv = vec![Some((*t, Some((*u, *n))))];
                 self.wd = 1;
                 ok
